@@ -87,7 +87,7 @@ func aliasingConfig(seed uint64, i int, root string) (*gen.Case, error) {
 		&gen.Content{Type: "config|noreplace", Src: filepath.Join(root, host.Rel), Dst: "/etc/" + s.Name + "/noreplace.conf"},
 		&gen.Content{Type: "config|missingok", Src: filepath.Join(root, host.Rel), Dst: "/etc/" + s.Name + "/missingok.conf"},
 	)
-	s.Depends = []string{"zeta", "zeta", "alpha", "mid >= 1.0", "alpha2", "alpha"} // unsorted, with duplicates that are not last
+	s.Depends = []string{"zeta", "zeta", "alpha", "mid >= 1.0", "paren (>= 1.2)", "alpha2", "alpha"} // unsorted, with duplicates that are not last, both relation spellings
 	s.Provides = []string{"prov-b", "prov-b", "prov-a", "prov-c"}
 	s.Conflicts = []string{"c2", "c2", "c1", "c3"}
 	s.Recommends = []string{"r9", "r1"}
